@@ -2,13 +2,14 @@
 from __future__ import annotations
 
 import ast
+import re
 from typing import Dict, List, Optional, Set, Tuple
 
 from .actions import ActionAnalyzer, CHOICE, REPETITIONS, Reads, info_points
 from .core import AnalysisError, Report
 from .emit import Folder
 from .grammar import GNode, Grammar, Scope, first_terms, is_constant, VARIABLE_TERMINALS
-from .prog import (Program, bind_call, func_params, guards_of, parent, required_params, unparse,
+from .prog import (Program, bind_call, enclosing, func_params, guards_of, parent, required_params, unparse,
                    walk_no_nested)
 from .rules_grammar import ctx_label, gloc, parse_root
 
@@ -788,3 +789,97 @@ def rule_ordered_choice(ctx, rep: Report, rid="G7"):
         rep.add(rid, f"first-match:{ctx_label(g, n)}", not problems,
                 "with `|` the first matching alternative wins even if a later one matches more: " +
                 "; ".join(problems[:3]), gloc(n))
+
+
+def rule_lists_kept_whole(ctx, rep: Report, rid="G10", package="gtwrap/interface_parser", min_sites=4):
+    """Wherever the parser copies a parsed sequence into a node (a loop that appends to a list, or a comprehension)
+    the whole sequence is walked and every element ends up in a list exactly once: no slice, no filter, no
+    `continue`/`break`, no membership test before the append.  (Routing by isinstance - Class.Members - is G5's
+    business and is recognised here as 'every branch appends'.)"""
+    prog = ctx.prog
+    n = 0
+    for mi in sorted(prog.modules.values(), key=lambda m: m.rel):
+        if not mi.rel.startswith(package):
+            continue
+        fns = [(f"{q}.{m}", f) for q, c in mi.classes.items() for m, f in c.methods.items() if not m.startswith("find")]
+        for name, fn in sorted(fns):
+            params = set(func_params(fn))
+            # locals that are plain aliases of a parameter (ti_list = typename_and_instantiations_list)
+            for st in walk_no_nested(fn):
+                if isinstance(st, ast.Assign) and len(st.targets) == 1 and isinstance(st.targets[0], ast.Name) \
+                        and isinstance(st.value, ast.Name) and st.value.id in params:
+                    params.add(st.targets[0].id)
+            for node in walk_no_nested(fn):
+                # --- loops that append
+                if isinstance(node, ast.For):
+                    apps = [c for c in ast.walk(node) if isinstance(c, ast.Call) and isinstance(c.func, ast.Attribute) and c.func.attr == "append"
+                            and enclosing(c, ast.For) is node]
+                    if not apps:
+                        continue
+                    it = node.iter
+                    base = it
+                    while isinstance(base, ast.Call) and isinstance(base.func, ast.Attribute) and base.func.attr in ("asList", "as_list", "list") and not base.args:
+                        base = base.func.value
+                    roots = {x.id for x in ast.walk(base) if isinstance(x, ast.Name)}
+                    if not (roots & params) and not any(isinstance(x, ast.Attribute) for x in ast.walk(base)):
+                        continue
+                    n += 1
+                    whole = isinstance(base, (ast.Name, ast.Attribute)) or (isinstance(base, ast.Call) and isinstance(base.func, ast.Name)
+                                                                           and base.func.id in ("enumerate",) and isinstance(base.args[0], (ast.Name, ast.Attribute)))
+                    jumps = [x for x in ast.walk(node) if isinstance(x, (ast.Continue,)) and enclosing(x, ast.For) is node]
+                    brks = [x for x in ast.walk(node) if isinstance(x, ast.Break) and enclosing(x, (ast.For, ast.While)) is node]
+
+                    def appends_once(stmts) -> bool:
+                        """every path through stmts performs exactly one append (or the block is an isinstance dispatch)"""
+                        cnt = 0
+                        for st in stmts:
+                            if isinstance(st, ast.If):
+                                a, b = appends_once(st.body), (appends_once(st.orelse) if st.orelse else None)
+                                disp = isinstance(st.test, ast.Call) and unparse(st.test.func) == "isinstance"
+                                if disp:
+                                    # a type dispatch may leave other kinds to other lists / drop unknown kinds (G5 decides)
+                                    cnt += 1 if a else 0
+                                    continue
+                                if b is None:
+                                    if a:
+                                        return False          # appended only under a condition
+                                    continue
+                                if a != b:
+                                    return False
+                                cnt += 1 if a else 0
+                            elif isinstance(st, ast.For):
+                                if any(isinstance(c, ast.Call) and isinstance(c.func, ast.Attribute) and c.func.attr == "append" for c in ast.walk(st)):
+                                    cnt += 1              # table-driven dispatch: judged by G5
+                            else:
+                                cnt += sum(1 for c in ast.walk(st) if isinstance(c, ast.Call) and isinstance(c.func, ast.Attribute) and c.func.attr == "append")
+                        return cnt == 1
+                    once = appends_once(node.body)
+                    rep.add(rid, f"list-copy:{name}:loop over {unparse(it)[:40]}", whole and once and not jumps and not brks,
+                            f"iterates {'the whole sequence' if whole else 'a slice / filtered view: ' + unparse(it)[:50]}; "
+                            f"{'one append on every path' if once else 'an element can be skipped or added twice (conditional append)'}; "
+                            f"continue/break: {len(jumps) + len(brks)} - a declared element (an instantiation, an argument, an enumerator) "
+                            f"is dropped or duplicated in the parse tree", f"{mi.rel}:{node.lineno}")
+                # --- comprehensions over a parameter / attribute
+                elif isinstance(node, (ast.ListComp, ast.GeneratorExp)) and len(node.generators) == 1:
+                    gen = node.generators[0]
+                    base = gen.iter
+                    roots = {x.id for x in ast.walk(base) if isinstance(x, ast.Name)}
+                    if not (roots & params):
+                        continue
+                    if "self" in roots and fn.name in ("__repr__", "__str__"):
+                        continue
+                    n += 1
+                    whole = isinstance(base, (ast.Name, ast.Attribute)) or (
+                        isinstance(base, ast.Call) and isinstance(base.func, ast.Attribute) and base.func.attr in ("asList", "as_list") and not base.args)
+                    cv = {x.id for x in ast.walk(gen.target) if isinstance(x, ast.Name)}
+                    elt_txt = unparse(node.elt)
+                    for v_ in sorted(cv, key=len, reverse=True):
+                        elt_txt = re.sub(rf"\b{re.escape(v_)}\b", "_", elt_txt)
+                    base_txt = unparse(base)
+                    for v_ in sorted(params - set(func_params(fn)), key=len, reverse=True):
+                        base_txt = re.sub(rf"\b{re.escape(v_)}\b", "<alias>", base_txt)
+                    rep.add(rid, f"list-copy:{name}:comprehension `{elt_txt[:30]}` over {base_txt[:30]}",
+                            whole and not gen.ifs, f"`{unparse(node)[:80]}`: a filter or slice drops declared elements from the parse tree",
+                            f"{mi.rel}:{node.lineno}")
+    if n < min_sites:
+        raise AnalysisError(f"{rep.prop}/{rid}: only {n} list-copying sites found in the parser ({min_sites} expected)")
